@@ -29,6 +29,21 @@ func main() { hx.Main("C01", run) }
 const findingNegShift = "neg-shift-count"
 const findingUintptrNot = "uintptr-bitnot-build-panic"
 
+// Recorded findings whose `minimal` is a whole program, and the generator variants
+// ("<fragment kind>.<variant>", see prog.go) left out of the general stream while they are open.
+var findingFeatures = map[string][]string{
+	"println-defined-type":           {"const.1"},
+	"pointer-compound-assign":        {"pointer.0"},
+	"pointer-to-defined-type-iface":  {"iface.7"},
+	"range-array-not-copied":         {"array.1"},
+	"append-func-literal":            {"closure.2"},
+	"assign-index-operand-order":     {"assign.1"},
+	"labelled-break-nested-loop":     {"control.0", "control.6"},
+	"deref-address-taken-pointer":    {"pointer.4"},
+	"named-result-set-after-recover": {"defer.2", "defer.3", "defer.6"},
+	"init-order-through-function":    {"initorder.0", "initorder.1", "initorder.2"},
+}
+
 // ---------------------------------------------------------------- opcode-level cases
 
 // opCase is one opcode-level case; line is the driver request, tc the same thing as a tree.
@@ -427,6 +442,12 @@ func (w *world) report(tc *tcase, name string) {
 
 func run(c *hx.Ctx) error {
 	res := c.Res
+	if n := os.Getenv("C01_DEV_PROGRAMS"); n != "" {
+		// development aid: only the whole-program stream, no shrinking
+		k := 0
+		fmt.Sscan(n, &k)
+		return programStream(c, k, 0)
+	}
 	res.Rule = "stream 1: every binary/unary/shift/comparison/conversion operator × every integer kind × boundary-rich operand pairs (extremes, 0, ±1, 2^k±1, random), one tiny program each, three-way: Scriggo / generated VM term / Spec; stream 2: random typed expression trees of depth ≤ 4 over variables (local, parameter, package-level) and typed constants at every width, shifts with counts of every kind (small, ≥ width, huge; negative ones in their own sub-stream), division by zero under recover(); a case is non-trivial when it contains at least one operator applied to a variable; distinct by protocol line"
 	w := &world{c: c}
 
@@ -711,7 +732,12 @@ func run(c *hx.Ctx) error {
 	res.Histogram["scriggo-builds"] = w.builds
 
 	// ---- stream 4: whole programs over a wide part of the language, gc against Scriggo
-	return programStream(c, c.N(400, 4000), c.N(40, 80))
+	for batch := 0; batch < c.N(1, 4); batch++ {
+		if err := programStream(c, c.N(400, 1000), c.N(12, 40)); err != nil {
+			return err
+		}
+	}
+	return nil
 }
 
 // shrinkErr minimises a case on which Build or Run fails as a whole (host panic, build error).
@@ -769,12 +795,20 @@ func programStream(c *hx.Ctx, n int, shrinkBudget int) error {
 		if strings.HasPrefix(f.Minimal, "package main") {
 			progs = append(progs, rawProgram(f.Minimal))
 			findingOf = append(findingOf, f.ID)
-			g.avoid[f.ID] = true
+			for _, feat := range findingFeatures[f.ID] {
+				g.avoid[feat] = true
+			}
 		}
 	}
 	nFind := len(progs)
 	for i := 0; i < n; i++ {
 		progs = append(progs, g.genProgram())
+	}
+	if dir := os.Getenv("C01_DEV_DUMP"); dir != "" {
+		for i, p := range progs {
+			os.WriteFile(fmt.Sprintf("%s/p%03d.txt", dir, i), []byte(p.text("P", "main")), 0o644)
+		}
+		return nil
 	}
 	gcOut, err := runGCPrograms(progs)
 	if err != nil {
@@ -786,6 +820,7 @@ func programStream(c *hx.Ctx, n int, shrinkBudget int) error {
 	if err != nil {
 		return err
 	}
+	var differing []*program
 	for i, p := range progs {
 		if i < nFind {
 			if gcOut[i] != sc[i] {
@@ -809,9 +844,63 @@ func programStream(c *hx.Ctx, n int, shrinkBudget int) error {
 			res.Sample(map[string]string{"program": src, "gc": gcOut[i], "scriggo": sc[i]})
 		}
 		if gcOut[i] != sc[i] {
-			min := shrinkProgram(p, shrinkBudget)
-			_, s2, g2 := programDiffers(min)
-			res.AddBreak(proto.Break{Kind: "property", Name: "program-vs-gc", Case: min.text("P", "main"), Human: "fragments: " + min.kinds(), Impl: s2, Model: "gc: " + g2})
+			res.Hist("prog-differs")
+			differing = append(differing, p)
+		}
+	}
+	if len(differing) == 0 {
+		return nil
+	}
+	// isolate: every fragment of a differing program on its own, all in one more gc binary
+	// (fragments are independent, so these programs are valid by construction)
+	var singles []*program
+	var owner []int
+	for i, p := range differing {
+		if len(p.frags) > 1 {
+			for _, f := range p.frags {
+				singles = append(singles, &program{frags: []fragment{f}})
+				owner = append(owner, i)
+			}
+		}
+	}
+	isolated := map[int]*program{}
+	isoS, isoG := map[int]string{}, map[int]string{}
+	if len(singles) > 0 {
+		g1, err := runGCPrograms(singles)
+		if err == nil {
+			res.SpecChecks["go-run-invocations"]++
+			s1, err := runScriggoPrograms(singles)
+			if err == nil {
+				for j := range singles {
+					if g1[j] != s1[j] && isolated[owner[j]] == nil {
+						isolated[owner[j]] = singles[j]
+						isoS[owner[j]], isoG[owner[j]] = s1[j], g1[j]
+					}
+				}
+			}
+		}
+	}
+	for i, p := range differing {
+		if q := isolated[i]; q != nil {
+			p = q
+		}
+		if dump := os.Getenv("C01_DEV_DIFFS"); dump != "" {
+			s2, g2 := "(see whole program)", ""
+			if q := isolated[i]; q != nil {
+				s2, g2 = isoS[i], isoG[i]
+			}
+			fh, _ := os.OpenFile(dump, os.O_APPEND|os.O_CREATE|os.O_WRONLY, 0o644)
+			fmt.Fprintf(fh, "######## %s\n%s\n---- scriggo\n%s\n---- gc\n%s\n", p.kinds(), p.text("P", "main"), s2, g2)
+			fh.Close()
+			continue
+		}
+		if i < 2 && shrinkBudget > 0 {
+			p = shrinkProgram(p, shrinkBudget)
+		}
+		_, s2, g2 := programDiffers(p)
+		res.AddBreak(proto.Break{Kind: "property", Name: "program-vs-gc", Case: p.text("P", "main"), Human: "fragments: " + p.kinds(), Impl: s2, Model: "gc: " + g2})
+		if i >= 4 {
+			break
 		}
 	}
 	return nil
